@@ -86,22 +86,35 @@ pub(crate) mod verif_merkle {
 
     /// completeness: the issued (index, path) recompute the root, under the repository's own
     /// verifier and (C02) under the independent protocol verifier with the protocol's widths.
-    pub fn complete_body<const N: usize, const LL: usize, const W: usize>(version: Version, idx: usize) {
+    /// EL = effective leaf length (<= LL; 0 gives empty leaves), `equal`: leaf 1 := leaf 0.
+    pub fn complete_body<const N: usize, const LL: usize, const EL: usize, const W: usize>(version: Version, idx: usize, equal: bool) {
         ring::digest::model_reset(false);
-        let leaves: [[u8; LL]; N] = [[0u8; LL]; N].map(|_| vany_bytes::<LL>());
-        let (tree, root) = build::<N, LL>(version, &leaves);
+        let mut leaves: [[u8; LL]; N] = [[0u8; LL]; N].map(|_| vany_bytes::<LL>());
+        if equal && N > 1 {
+            leaves[1] = leaves[0];
+        }
+        let mut tree = MerkleTree::new(version);
+        let mut i = 0;
+        while i < N {
+            tree.push_leaf(&leaves[i][..EL]);
+            i += 1;
+        }
+        let root = tree.compute_root();
         let path = tree.get_paths(idx);
-        let again = tree.root_from_paths(idx, &leaves[idx], &path);
+        let again = tree.root_from_paths(idx, &leaves[idx][..EL], &path);
         vassert!(same(&again, &root), "VERIF:C04:issued-path-recomputes-the-root");
         let d = depth_of(N);
+        vassert!(path.len() % root.len() == 0 || version == Version::RfcDraft13, "VERIF:C04:path-is-whole-hash-values");
+        vcover!(true, "COVER:merkle-end");
+        // ---- protocol conformance (C02): widths and the independent verifier
         vassert!(root.len() == W, "VERIF:C02:root-width-is-the-protocols-hash-width");
         vassert!(path.len() == d * W, "VERIF:C02:path-length-is-depth-times-protocol-hash-width");
-        let spec = spec_root::<W>(&leaves[idx], idx, &path, 3);
+        let spec = spec_root::<W>(&leaves[idx][..EL], idx, &path, 3);
         vassert!(spec.is_some(), "VERIF:C02:independent-verifier-accepts-path-shape");
         if let Some(sr) = spec {
             vassert!(same(&sr, &root), "VERIF:C02:independent-protocol-verifier-recomputes-the-signed-root");
         }
-        vcover!(true, "COVER:merkle-end");
+        vcover!(true, "COVER:merkle-c02-end");
         core::mem::forget(path);
         core::mem::forget(again);
         core::mem::forget(root);
@@ -217,12 +230,12 @@ pub(crate) mod verif_merkle {
     }
 
     macro_rules! c04_complete {
-        ($name:ident, $n:expr, $ll:expr, $w:expr, $ver:expr, $idx:expr, $unwind:expr) => {
+        ($name:ident, $n:expr, $ll:expr, $el:expr, $w:expr, $ver:expr, $idx:expr, $eq:expr, $unwind:expr) => {
             #[cfg_attr(kani, kani::proof)]
             #[cfg_attr(kani, kani::unwind($unwind))]
             #[cfg_attr(not(kani), test)]
             fn $name() {
-                complete_body::<$n, $ll, $w>($ver, $idx);
+                complete_body::<$n, $ll, $el, $w>($ver, $idx, $eq);
             }
         };
     }
@@ -247,31 +260,37 @@ pub(crate) mod verif_merkle {
         };
     }
 
-    //@ family c04_complete props=C04,C02 mode=strict mod=merkle::verif_merkle must_cover=COVER:merkle-end
+    //@ family c04_complete props=C04,C02 mode=strict mod=merkle::verif_merkle must_cover=COVER:merkle-end,C02/COVER:merkle-c02-end
     //@ harness c04_complete_google_n1_i0 tier=quick shape="classic, 1 leaf of 8 symbolic bytes, index 0"
-    c04_complete!(c04_complete_google_n1_i0, 1, 8, 64, Version::Google, 0, 12);
+    c04_complete!(c04_complete_google_n1_i0, 1, 8, 8, 64, Version::Google, 0, false, 12);
     //@ harness c04_complete_google_n2_i1 tier=quick shape="classic, 2 leaves of 8 symbolic bytes, index 1"
-    c04_complete!(c04_complete_google_n2_i1, 2, 8, 64, Version::Google, 1, 12);
-    //@ harness c04_complete_google_n3_i2 tier=quick shape="classic, 3 leaves (padded level), index 2"
-    c04_complete!(c04_complete_google_n3_i2, 3, 4, 64, Version::Google, 2, 12);
-    //@ harness c04_complete_google_n3_i0 tier=thorough shape="classic, 3 leaves, index 0"
-    c04_complete!(c04_complete_google_n3_i0, 3, 4, 64, Version::Google, 0, 12);
-    //@ harness c04_complete_google_n4_i3 tier=thorough shape="classic, 4 leaves, index 3"
-    c04_complete!(c04_complete_google_n4_i3, 4, 4, 64, Version::Google, 3, 13);
-    //@ harness c04_complete_google_n5_i4 tier=thorough shape="classic, 5 leaves (two padded levels), index 4" required=no
-    c04_complete!(c04_complete_google_n5_i4, 5, 4, 64, Version::Google, 4, 14);
+    c04_complete!(c04_complete_google_n2_i1, 2, 8, 8, 64, Version::Google, 1, false, 12);
+    //@ harness c04_complete_google_n2_i0 tier=quick shape="classic, 2 leaves of 4 symbolic bytes, index 0"
+    c04_complete!(c04_complete_google_n2_i0, 2, 4, 4, 64, Version::Google, 0, false, 12);
+    //@ harness c04_complete_google_n2_equal tier=quick shape="classic, 2 equal leaves, index 1"
+    c04_complete!(c04_complete_google_n2_equal, 2, 4, 4, 64, Version::Google, 1, true, 12);
+    //@ harness c04_complete_google_n2_empty tier=quick shape="classic, 2 empty (hence equal) leaves, index 0"
+    c04_complete!(c04_complete_google_n2_empty, 2, 1, 0, 64, Version::Google, 0, false, 12);
+    //@ harness c04_complete_google_n3_i2 tier=thorough shape="classic, 3 leaves (padded level), index 2" required=no timeout=800
+    c04_complete!(c04_complete_google_n3_i2, 3, 4, 4, 64, Version::Google, 2, false, 12);
+    //@ harness c04_complete_google_n3_i0 tier=thorough shape="classic, 3 leaves, index 0" required=no timeout=800
+    c04_complete!(c04_complete_google_n3_i0, 3, 4, 4, 64, Version::Google, 0, false, 12);
+    //@ harness c04_complete_google_n4_i3 tier=thorough shape="classic, 4 leaves, index 3" required=no timeout=800
+    c04_complete!(c04_complete_google_n4_i3, 4, 4, 4, 64, Version::Google, 3, false, 13);
+    //@ harness c04_complete_google_n5_i4 tier=thorough shape="classic, 5 leaves (two padded levels), index 4" required=no timeout=800
+    c04_complete!(c04_complete_google_n5_i4, 5, 4, 4, 64, Version::Google, 4, false, 14);
     //@ harness c04_complete_ietf_n1_i0 tier=quick shape="IETF, 1 leaf of 8 symbolic bytes, index 0"
-    c04_complete!(c04_complete_ietf_n1_i0, 1, 8, 32, Version::RfcDraft13, 0, 12);
+    c04_complete!(c04_complete_ietf_n1_i0, 1, 8, 8, 32, Version::RfcDraft13, 0, false, 12);
     //@ harness c04_complete_ietf_n2_i0 tier=quick shape="IETF, 2 leaves, index 0"
-    c04_complete!(c04_complete_ietf_n2_i0, 2, 8, 32, Version::RfcDraft13, 0, 12);
-    //@ harness c04_complete_ietf_n3_i2 tier=quick shape="IETF, 3 leaves (padded level), index 2"
-    c04_complete!(c04_complete_ietf_n3_i2, 3, 4, 32, Version::RfcDraft13, 2, 12);
-    //@ harness c04_complete_ietf_n3_i1 tier=thorough shape="IETF, 3 leaves, index 1"
-    c04_complete!(c04_complete_ietf_n3_i1, 3, 4, 32, Version::RfcDraft13, 1, 12);
-    //@ harness c04_complete_ietf_n4_i2 tier=thorough shape="IETF, 4 leaves, index 2"
-    c04_complete!(c04_complete_ietf_n4_i2, 4, 4, 32, Version::RfcDraft13, 2, 13);
-    //@ harness c04_complete_google_empty_leaf tier=quick shape="classic, 2 leaves of 0 bytes (equal, empty), index 0"
-    c04_complete!(c04_complete_google_empty_leaf, 2, 0, 64, Version::Google, 0, 12);
+    c04_complete!(c04_complete_ietf_n2_i0, 2, 8, 8, 32, Version::RfcDraft13, 0, false, 12);
+    //@ harness c04_complete_ietf_n2_i1 tier=quick shape="IETF, 2 leaves of 4 bytes, index 1"
+    c04_complete!(c04_complete_ietf_n2_i1, 2, 4, 4, 32, Version::RfcDraft13, 1, false, 12);
+    //@ harness c04_complete_ietf_n3_i2 tier=thorough shape="IETF, 3 leaves (padded level), index 2" required=no timeout=800
+    c04_complete!(c04_complete_ietf_n3_i2, 3, 4, 4, 32, Version::RfcDraft13, 2, false, 12);
+    //@ harness c04_complete_ietf_n3_i1 tier=thorough shape="IETF, 3 leaves, index 1" required=no timeout=800
+    c04_complete!(c04_complete_ietf_n3_i1, 3, 4, 4, 32, Version::RfcDraft13, 1, false, 12);
+    //@ harness c04_complete_ietf_n4_i2 tier=thorough shape="IETF, 4 leaves, index 2" required=no timeout=800
+    c04_complete!(c04_complete_ietf_n4_i2, 4, 4, 4, 32, Version::RfcDraft13, 2, false, 13);
 
     //@ family c04_bind props=C04 mode=strict mod=merkle::verif_merkle must_cover=COVER:merkle-end
     //@ harness c04_bind_google_n2_i1_index tier=quick shape="classic, 2 distinct leaves, index 1: any other index"
@@ -288,20 +307,24 @@ pub(crate) mod verif_merkle {
     c04_bind!(c04_bind_ietf_n2_i0_index, 2, 4, Version::RfcDraft13, 0, 0, 12);
     //@ harness c04_bind_ietf_n2_i1_changed tier=quick shape="IETF, 2 distinct leaves, index 1: any single path byte changed"
     c04_bind!(c04_bind_ietf_n2_i1_changed, 2, 4, Version::RfcDraft13, 1, 2, 12);
-    //@ harness c04_bind_google_n3_i2_index tier=thorough shape="classic, 3 distinct leaves, index 2: any other index" required=no
+    //@ harness c04_bind_google_n3_i2_index tier=thorough timeout=800 shape="classic, 3 distinct leaves, index 2: any other index" required=no
     c04_bind!(c04_bind_google_n3_i2_index, 3, 4, Version::Google, 2, 0, 12);
-    //@ harness c04_bind_google_n3_i0_changed tier=thorough shape="classic, 3 distinct leaves, index 0: any single path byte changed" required=no
+    //@ harness c04_bind_google_n3_i0_changed tier=thorough timeout=800 shape="classic, 3 distinct leaves, index 0: any single path byte changed" required=no
     c04_bind!(c04_bind_google_n3_i0_changed, 3, 4, Version::Google, 0, 2, 12);
-    //@ harness c04_bind_ietf_n3_i1_leaf tier=thorough shape="IETF, 3 distinct leaves, index 1: any other leaf" required=no
+    //@ harness c04_bind_ietf_n3_i1_leaf tier=thorough timeout=800 shape="IETF, 3 distinct leaves, index 1: any other leaf" required=no
     c04_bind!(c04_bind_ietf_n3_i1_leaf, 3, 4, Version::RfcDraft13, 1, 1, 12);
 
     //@ family c04_reuse props=C04 mode=strict mod=merkle::verif_merkle must_cover=COVER:merkle-end
-    //@ harness c04_reuse_google_3_then_2 tier=quick shape="classic, batch of 3 then batch of 2 on one tree, index 1"
+    //@ harness c04_reuse_google_2_then_1 tier=quick shape="classic, batch of 2 then batch of 1 on one tree, index 0"
+    c04_reuse!(c04_reuse_google_2_then_1, 2, 1, 4, Version::Google, 0, 12);
+    //@ harness c04_reuse_google_1_then_2 tier=quick shape="classic, batch of 1 then batch of 2 on one tree, index 1" timeout=600
+    c04_reuse!(c04_reuse_google_1_then_2, 1, 2, 4, Version::Google, 1, 12);
+    //@ harness c04_reuse_ietf_2_then_2 tier=quick shape="IETF, batch of 2 then batch of 2 on one tree, index 0" timeout=600 required=no
+    c04_reuse!(c04_reuse_ietf_2_then_2, 2, 2, 4, Version::RfcDraft13, 0, 12);
+    //@ harness c04_reuse_google_3_then_2 tier=thorough shape="classic, batch of 3 then batch of 2, index 1" required=no timeout=800
     c04_reuse!(c04_reuse_google_3_then_2, 3, 2, 4, Version::Google, 1, 12);
-    //@ harness c04_reuse_ietf_2_then_3 tier=quick shape="IETF, batch of 2 then batch of 3 on one tree, index 2"
+    //@ harness c04_reuse_ietf_2_then_3 tier=thorough shape="IETF, batch of 2 then batch of 3, index 2" required=no timeout=800
     c04_reuse!(c04_reuse_ietf_2_then_3, 2, 3, 4, Version::RfcDraft13, 2, 12);
-    //@ harness c04_reuse_google_1_then_3 tier=thorough shape="classic, batch of 1 then batch of 3, index 0" required=no
+    //@ harness c04_reuse_google_1_then_3 tier=thorough shape="classic, batch of 1 then batch of 3, index 0" required=no timeout=800
     c04_reuse!(c04_reuse_google_1_then_3, 1, 3, 4, Version::Google, 0, 12);
-    //@ harness c04_reuse_google_4_then_1 tier=thorough shape="classic, batch of 4 then batch of 1, index 0" required=no
-    c04_reuse!(c04_reuse_google_4_then_1, 4, 1, 4, Version::Google, 0, 13);
 }
